@@ -474,4 +474,133 @@ theorem outputBitmapSegmentResponse_roundtrip (s : OutputBitmapSegmentResponse) 
     decOutputBitmapSegmentResponse (encOutputBitmapSegmentResponse s ++ rest) = .ok (s, rest) :=
   decOutputBitmapSegmentResponse_enc s h rest
 
+/-! ## the EMPTY and the SINGLETON instances, stated on their own
+
+None of the round-trip theorems above has a hypothesis that excludes an empty list (`HashesWF []`,
+`PosOK 0 []`, `StringWF []`, `LocatorWF []`, `PeerAddrsWF []` all hold). The corners of the size
+space are nevertheless where a decoder goes wrong first (a reader that refuses a count of 0), so each
+is a theorem of its own here, together with the bytes the empty instance is written as. The harness
+generates every one of them deliberately (`#STAT empties …`). -/
+
+/-- A Merkle proof of ZERO hashes — what `SegmentProof::generate` produces when the whole MMR fits into
+the one segment (idx 0, `n_leaves ≤ 2^height`) and what `Segment::validate` accepts there — is
+written as eight zero bytes and read back as the empty proof. -/
+theorem segProof_empty_roundtrip (rest : Bytes) :
+    encSegProof [] = [0, 0, 0, 0, 0, 0, 0, 0] ∧ decSegProof (encSegProof [] ++ rest) = .ok ([], rest) :=
+  ⟨by decide, decSegProof_enc [] hashesWF_nil rest⟩
+
+/-- a proof of exactly one hash -/
+theorem segProof_singleton_roundtrip (h : Bytes) (hl : h.length = HASH_SIZE) (rest : Bytes) :
+    decSegProof (encSegProof [h] ++ rest) = .ok ([h], rest) :=
+  decSegProof_enc [h] (hashesWF_singleton h hl) rest
+
+example : (List.replicate 32 7 : Bytes).length = HASH_SIZE := by decide
+
+/-- The whole MMR in one segment: no pruned-subtree hashes, `k ≥ 0` leaves, an EMPTY proof. Nothing
+is asked of the proof, and nothing of the hash part. -/
+theorem segment_whole_mmr_roundtrip {α : Type} (p : Parser α) (w : α → Bytes) (id : SegId) (hid : id.WF)
+    (lp : List Nat) (ld : List α) (hl : lp.length = ld.length) (hpo : PosOK 0 lp)
+    (hc : ld.length ≤ MAX_SEGMENT_READ_ITEMS)
+    (hrt : ∀ x ∈ ld, ∀ rest, p (w x ++ rest) = .ok (x, rest)) (rest : Bytes) :
+    decSegment p (encSegment w { id := id, hashPos := [], hashes := [], leafPos := lp, leafData := ld, proof := [] } ++ rest)
+      = .ok ({ id := id, hashPos := [], hashes := [], leafPos := lp, leafData := ld, proof := [] }, rest) :=
+  decSegment_enc p w _ ⟨hid, rfl, posOK_nil, hashesWF_nil, hl, hpo, hc, hashesWF_nil⟩ hrt rest
+
+/-- one output leaf at position 0 of a one-leaf MMR, identifier (0, 0): the smallest honest segment -/
+example : decSegment decOutputId (encSegment encOutputId
+      ({ id := { height := 0, idx := 0 }, hashPos := [], hashes := [], leafPos := [0],
+         leafData := [⟨.plain, List.replicate 33 9⟩], proof := [] } : Segment OutputId))
+    = .ok ({ id := { height := 0, idx := 0 }, hashPos := [], hashes := [], leafPos := [0],
+             leafData := [⟨.plain, List.replicate 33 9⟩], proof := [] }, []) := by
+  have h := segment_whole_mmr_roundtrip decOutputId encOutputId { height := 0, idx := 0 } (by decide) [0]
+    [(⟨.plain, List.replicate 33 9⟩ : OutputId)] rfl
+    ((posOK_zero_iff [0]).mpr ⟨List.pairwise_singleton _ _, by
+      intro q hq; simp only [List.mem_singleton] at hq; subst hq; decide⟩)
+    (by simp only [List.length_singleton]; decide)
+    (fun x hx r => decOutputId_enc x (by
+      simp only [List.mem_singleton] at hx; subst hx; exact List.length_replicate) r) []
+  simpa using h
+
+/-- A fully pruned segment: `k ≥ 0` pruned-subtree hashes, NO leaves, an empty proof. -/
+theorem segment_fully_pruned_roundtrip {α : Type} (p : Parser α) (w : α → Bytes) (id : SegId) (hid : id.WF)
+    (hp : List Nat) (hs : List Bytes) (hl : hp.length = hs.length) (hpo : PosOK 0 hp) (hh : HashesWF hs)
+    (rest : Bytes) :
+    decSegment p (encSegment w { id := id, hashPos := hp, hashes := hs, leafPos := [], leafData := [], proof := [] } ++ rest)
+      = .ok ({ id := id, hashPos := hp, hashes := hs, leafPos := [], leafData := [], proof := [] }, rest) :=
+  decSegment_enc p w _ ⟨hid, hl, hpo, hh, rfl, posOK_nil, Nat.zero_le _, hashesWF_nil⟩
+    (fun _ h => (List.not_mem_nil h).elim) rest
+
+/-- The segment with nothing in it at all, whatever the leaf codec … -/
+theorem segment_empty_roundtrip {α : Type} (p : Parser α) (w : α → Bytes) (id : SegId) (hid : id.WF) (rest : Bytes) :
+    decSegment p (encSegment w { id := id, hashPos := [], hashes := [], leafPos := [], leafData := [], proof := [] } ++ rest)
+      = .ok ({ id := id, hashPos := [], hashes := [], leafPos := [], leafData := [], proof := [] }, rest) :=
+  segment_fully_pruned_roundtrip p w id hid [] [] rfl posOK_nil hashesWF_nil rest
+
+/-- … which for the identifier (0, 0) is 33 zero bytes on the wire -/
+example : encSegment encOutputId
+    ({ id := { height := 0, idx := 0 }, hashPos := [], hashes := [], leafPos := [], leafData := [], proof := [] } : Segment OutputId)
+      = List.replicate 33 0 := by decide
+
+/-- A bitmap segment of exactly ONE block of ONE chunk with an EMPTY proof (up to 1024 outputs: the
+whole bitmap MMR is the one leaf; identifier height 0, any index whose leaf has an MMR position). -/
+theorem bitmapSegment_single_chunk_empty_proof_roundtrip (idx : Nat) (hidx : idx < 2^63)
+    (b : BitmapBlock) (hb : b.WF) (h1 : b.nChunks = 1) (rest : Bytes) :
+    decBitmapSegment (encBitmapSegment { id := { height := 0, idx := idx }, blocks := [b], proof := [] } ++ rest)
+      = .ok ({ id := { height := 0, idx := idx }, blocks := [b], proof := [] }, rest) := by
+  apply decBitmapSegment_enc
+  refine ⟨⟨by simp only; decide, by simp only; omega⟩, ⟨1, ?_⟩, ?_, hashesWF_nil⟩
+  · have h1' : ¬ (18446744073709551616 ≤ idx) := by omega
+    have h2 : ¬ (9223372036854775808 ≤ idx) := by omega
+    simp [validateBlocks, leafOffset, nChunksOf, maxChunks, MAX_BITMAP_SEGMENT_HEIGHT, h1, h1', h2]
+  · intro x hx
+    simp only [List.mem_singleton] at hx
+    subst hx
+    exact hb
+
+/-- the all-zero single chunk is such a block -/
+example : ({ nChunks := 1, v := 0 } : BitmapBlock).WF ∧ ({ nChunks := 1, v := 0 } : BitmapBlock).nChunks = 1 :=
+  ⟨⟨by decide, Nat.pow_pos (by omega)⟩, rfl⟩
+
+/-- `Locator` with no hashes: one zero byte -/
+theorem locator_empty_roundtrip (rest : Bytes) :
+    encLocator [] = [0] ∧ decLocator (encLocator [] ++ rest) = .ok ([], rest) :=
+  ⟨by decide, decLocator_enc [] ⟨Nat.zero_le _, fun _ h => (List.not_mem_nil h).elim⟩ rest⟩
+
+/-- `PeerAddrs` with no addresses: four zero bytes -/
+theorem peerAddrs_empty_roundtrip (rest : Bytes) :
+    encPeerAddrs [] = [0, 0, 0, 0] ∧ decPeerAddrs (encPeerAddrs [] ++ rest) = .ok ([], rest) :=
+  ⟨by decide, decPeerAddrs_enc [] ⟨Nat.zero_le _, fun _ h => (List.not_mem_nil h).elim⟩ rest⟩
+
+/-- `Headers` with no headers: two zero bytes (writer only) -/
+theorem headers_empty_encoding {α : Type} (hw : α → Bytes) : encHeaders hw [] = [0, 0] := by
+  rw [encHeaders_small hw [] (by simp only [List.length_nil]; decide)]
+  simp only [List.length_nil, writeMulti, List.map_nil, List.flatten_nil, List.append_nil]
+  decide
+
+/-- `Hand` with an EMPTY user agent: still well-formed, round-trips like any other -/
+theorem hand_empty_user_agent_roundtrip (h : Hand) (hwf : h.WF) (rest : Bytes) :
+    ({ h with userAgent := [] } : Hand).WF ∧
+    decHand (encHand { h with userAgent := [] } ++ rest) = .ok (({ h with userAgent := [] } : Hand).norm, rest) := by
+  have hw : ({ h with userAgent := [] } : Hand).WF := by
+    obtain ⟨a, b, c, d, e, f, g, _⟩ := hwf
+    exact ⟨a, b, c, d, e, f, g, stringWF_nil⟩
+  exact ⟨hw, decHand_enc _ hw rest⟩
+
+/-- `Shake` with an EMPTY user agent -/
+theorem shake_empty_user_agent_roundtrip (s : Shake) (hwf : s.WF) (rest : Bytes) :
+    decShake (encShake { s with userAgent := [] } ++ rest) = .ok ({ s with userAgent := [] }, rest) := by
+  obtain ⟨a, b, c, d, _⟩ := hwf
+  exact decShake_enc { s with userAgent := [] } ⟨a, b, c, d, stringWF_nil⟩ rest
+
+/-- `PeerError` with an EMPTY message -/
+theorem peerError_empty_message_roundtrip (code : Nat) (h : code < 2^32) (rest : Bytes) :
+    decPeerError (encPeerError { code := code, message := [] } ++ rest) = .ok ({ code := code, message := [] }, rest) :=
+  decPeerError_enc _ ⟨h, stringWF_nil⟩ rest
+
+/-- … and at the other end: a string of the greatest length one read may have (100 000 bytes)
+round-trips (one byte more is refused: `bytes_cap` in `Props/C10.lean`) -/
+theorem string_max_length_roundtrip (s : Bytes) (hl : s.length = MAX_FIXED_READ) (hu : validUtf8 s = true)
+    (rest : Bytes) : decString (writeBytes s ++ rest) = .ok (s, rest) :=
+  decString_write s ⟨Nat.le_of_eq hl, hu⟩ rest
+
 end GV.Props.C10Msg
